@@ -120,6 +120,7 @@ class Evaluator:
     self.gen_state = {}    # id -> dict(items=[terms], pos=int) for summarised generators
     self.cond_log = []     # every traced two-armed conditional met: (term, function, node)
     self.leaf_override = {}  # tree term -> term standing for its generic leaf (lets a rule name 'the parameter' of a tree map)
+    self.raw_preds = {}     # normalised cond term -> predicates as written at the sites that produced it
     self.vmap_log = []     # (vmapped wrapper term, args, result, caller, kwargs): which calls ran under jax.vmap and with which axes
     self.loop_ctl = []     # per active loop: list of (cond, snapshot, kind) for undecided continue/break
     self._ids = 0
@@ -1870,6 +1871,9 @@ class Evaluator:
         r_ = T('cond', c2, tb, ta, loc=self._loc(n) if n is not None else None)
       else:
         r_ = T('cond', c2, ta, tb, loc=self._loc(n) if n is not None else None)
+      # the predicate as written (the normal form drops the difference between `x < y` and `not x >= y`, which matters
+      # for a NaN operand): rules that care look it up here
+      self.raw_preds.setdefault(r_, []).append(a[0])
       self.cond_log.append((r_, self.cur_fq(), n))
       return r_
     if dotted in ('jax.lax.while_loop',) and len(a) == 3:
